@@ -177,6 +177,24 @@ func Run(r *core.Run) {
 	optCases = append(optCases, optCase{"custom-key-context", resolution.Options{KeyContexts: custom}, func() []didtransformer.Option {
 		return []didtransformer.Option{didtransformer.WithKeyContext(custom)}
 	}})
+	// every key type mapped to a context of the deployment's own (the representation of a key follows its type, not its context)
+	customAll := map[string]string{}
+	for _, t := range keyTypes {
+		customAll[t] = "https://custom.example/contexts/" + t
+	}
+	optCases = append(optCases, optCase{"custom-key-context-all-types", resolution.Options{KeyContexts: customAll}, func() []didtransformer.Option {
+		return []didtransformer.Option{didtransformer.WithKeyContext(customAll)}
+	}})
+	// ... and two types sharing one context, the Ed25519 types swapped to each other's default context
+	swapped := map[string]string{}
+	for _, t := range keyTypes {
+		swapped[t] = "https://custom.example/contexts/shared"
+	}
+	swapped["Ed25519VerificationKey2018"] = "https://w3id.org/security/suites/ed25519-2020/v1"
+	swapped["Ed25519VerificationKey2020"] = "https://w3id.org/security/suites/ed25519-2018/v1"
+	optCases = append(optCases, optCase{"custom-key-context-swapped", resolution.Options{KeyContexts: swapped}, func() []didtransformer.Option {
+		return []didtransformer.Option{didtransformer.WithKeyContext(swapped)}
+	}})
 	baseState := resolution.State{UpdateCommitment: "uc", RecoveryCommitment: "rc", VersionID: "v1", CreatedTime: 1600000000, UpdatedTime: 1600000100}
 	info := protocol.TransformationInfo{"id": did, "published": true, "canonicalId": "did:sidetree:cid", "equivalentId": []string{"did:sidetree:e1", "did:sidetree:e2"}}
 	// the DID itself is data: a pct-encoded method-specific id (domain hint with a port) and one that looks like formatting verbs
